@@ -314,12 +314,9 @@ void body(vf::Ctx & c)
     // repository's tests pin on integer bounds: extent [-1,1] res 1 -> 3 cells, centre 0 at -1)
     c.maxStat("first-centre-above-lower-bound/tol", (first - a.lo) / tol[d]);
     c.maxStat("last-centre-below-upper-bound/tol", (a.hi - last) / tol[d]);
-#ifndef C13_LITERAL_COVER_ONLY   // experiment switch (never defined by the driver)
-    c.check(first <= a.lo + tol[d],
-      vf::fmt("axis %zu: first cell centre %.17g lies above the lower bound %.17g (res %.17g)", d, first, a.lo, res));
-    c.check(last >= a.hi - tol[d],
-      vf::fmt("axis %zu: last cell centre %.17g lies below the upper bound %.17g (res %.17g)", d, last, a.hi, res));
-#endif
+    // NOT asserted: "first centre <= lower bound" / "last centre >= upper bound". The floor/ceil code happens to
+    // guarantee it, but the property only says the first and last *cells* cover the bounds; an implementation that
+    // snaps the origin differently for non-integer bounds still satisfies the statement (measured above for the record).
     // spacing of consecutive centres: res +- tol (all of them up to 4096 cells, else ends + a sample)
     auto spacing = [&](size_t k) {
         double dd = static_cast<double>(tab[k + 1]) - static_cast<double>(tab[k]);
